@@ -23,8 +23,8 @@ theorem post_eq (cfg : Cfg) (h' : HState) (it : Iter) :
     to the carried state (`state.done` = finished, `state.counts.failure` ≠ 0 = the failure flag) -/
 theorem reset_top_eq (a : TopAtoms) : Extracted.resetAtTop a = resetAtTop a := rfl
 
-theorem at_top_eq (h : HState) :
-    h.atTop = if Extracted.resetAtTop { done := h.finished, anyFailure := h.failure } = true then HState.fresh else h := by
+theorem at_top_eq (h : HState) (top : Int) :
+    h.atTop top = if Extracted.resetAtTop { done := h.finished, anyFailure := h.failure } = true then HState.fresh top else h := by
   unfold HState.atTop Extracted.resetAtTop
   cases h.finished <;> cases h.failure <;> simp
 
@@ -57,7 +57,7 @@ theorem idle_step_eq (idle : Int) (pv : PView) (n : Nat) (t : Int) :
       | none => .noObs t
       | some v =>
         let a : GateAtoms := { now := t, reset := v, idle := idle, started := 0 }
-        if Extracted.idleCond a = true then idleWaitN idle pv n (sleepUntil t (Extracted.idleDelay a)) else .start t := by
+        if Extracted.idleCond a = true then idleWaitN idle pv n (sleepUntil t (Extracted.idleDelay a)) else .start t t := by
   conv => lhs; unfold idleWaitN
   cases pv t with
   | none => rfl
@@ -76,7 +76,7 @@ theorem poll_step_eq (idle : Int) (pv : PView) (start : Int) (n : Nat) (p : Int)
       | none => .noObs p
       | some v =>
         let a : GateAtoms := { now := p, reset := v, idle := idle, started := start }
-        if Extracted.pollCond a = true then pollN idle pv start n (sleepUntil p (Extracted.pollDelay a)) else .start p := by
+        if Extracted.pollCond a = true then pollN idle pv start n (sleepUntil p (Extracted.pollDelay a)) else .start p p := by
   conv => lhs; unfold pollN
   cases pv p with
   | none => rfl
